@@ -74,9 +74,13 @@ def plan(tier, seed):
         if len(specs) >= n:
             break
     if n_pairs:
-        # the exhaustive pairs first: on a loaded machine the time budget then cuts random histories, not the pairs
+        # exhaustive pairs and random histories interleaved: on a loaded machine the time budget then cuts both alike
         pairs = [sp for sp in specs if sp.get("kind") == "pairs"]
-        specs = pairs + [sp for sp in specs if sp.get("kind") != "pairs"]
+        others = [sp for sp in specs if sp.get("kind") != "pairs"]
+        specs = []
+        while pairs or others:  # interleaved 1 : 2, so that any cut-off leaves both kinds covered
+            specs += pairs[:1] + others[:2]
+            pairs, others = pairs[1:], others[2:]
     return specs
 
 
